@@ -97,7 +97,7 @@ PROPERTIES["C04"] = dict(
         _c04("c04_s3_i1_f1_d11", T, "(3,1,1|1,1)"),
         _c04("c04_s3_i0_f0_d02", T, "(3,0,0|0,2)"),
         _c04("c04_s3_i1_f2_d12", T, "(3,1,2|1,2)", timeout=3000),
-        _c04("c04_s2_i0_f0_dd11", T, "(2,0,0|0,1|0,1)"),
+        _c04("c04_s2_i0_f0_dd11", Q, "(2,0,0|0,1|0,1)"),
         _c04("c04_s3_i0_f1_dd01", T, "(3,0,1|0,0|0,1)"),
         _c04("c04_s3_i0_f0_dd12", T, "(3,0,0|0,1|0,2)", timeout=3000),
         _c04("c04_s3_i0_f0_d10", Q, "(3,0,0|1,0)"),
@@ -164,21 +164,24 @@ PROPERTIES["C35"] = dict(
     outside=["asset handler read loops, BoxReader, Store, Builder::sign", "write-side short writes", "streams longer than 24 bytes"],
     assumptions=_TRUST + ["a read never returns 0 bytes while data remains (Read contract)", "failures are io::ErrorKind::Other"],
     harnesses=[
-        H("c35::c35_sniff_chunking_independent", unwind=26, timeout=1200,
-          what="all streams of 0..=24 bytes x all short-read schedules", bounds="24 bytes, every read returns symbolic k in 1..=requested; --unwind 26",
+        H("c35::c35_sniff_chunking_independent", unwind=18, timeout=1500, mem_gb=24,
+          what="all non-ID3 streams of 0..=12 bytes x schedules with up to 3 short reads of symbolic size", bounds="12 bytes, <=3 short reads (symbolic k in 1..=requested), then full reads; --unwind 18",
           kernel=["jumbf_io::container_from_stream"]),
-        H("c35::c35_sniff_id3_peek_chunking_independent", unwind=26, timeout=1200,
+        H("c35::c35_sniff_id3_peek_chunking_independent", unwind=26, timeout=2400, mem_gb=24, tiers=T,
           what="ID3-tagged streams of 10..=24 bytes, first read full, later reads short", bounds="24 bytes; --unwind 26",
           kernel=["jumbf_io::container_from_stream"]),
-        H("c35::c35_sniff_fault_never_invents", unwind=26, timeout=1200,
-          what="all streams of 0..=24 bytes x failure injected at call index 0..7", bounds="24 bytes, 8 fault points; --unwind 26",
+        H("c35::c35_sniff_fault_never_invents", unwind=26, timeout=2400, tiers=T,
+          mem_gb=28, what="all streams of 0..=16 bytes x failure injected at call index 0..7", bounds="16 bytes, 8 fault points; --unwind 26",
           kernel=["jumbf_io::container_from_stream"]),
         H("c35::c35_stream_len_preserves_position_and_propagates_errors", unwind=26, timeout=600,
           what="all lengths 0..=24 x all u64 positions x failure at seek index 0..2", bounds="complete for the seek logic; --unwind 26",
           kernel=["io_utils::stream_len"]),
-        H("c35::c35_read_to_vec_chunking_and_errors", unwind=12, timeout=1800,
-          what="streams of 0..=8 bytes x position 0..=9 x all u64 request sizes x all short-read schedules x failure at call 0..5",
-          bounds="8 bytes; --unwind 12", kernel=["ReaderUtils::read_to_vec", "io_utils::safe_vec"]),
+        H("c35::c35_read_to_vec_rejects_oversized_requests", unwind=26, timeout=900,
+          what="all lengths 0..=24 x all u64 positions x all u64 request sizes that do not fit", bounds="complete for the range check; --unwind 26",
+          kernel=["ReaderUtils::read_to_vec"]),
+        H("c35::c35_read_to_vec_chunking_and_errors", unwind=8, timeout=2400, mem_gb=24, tiers=T,
+          what="streams of 0..=4 bytes x position/size with p+n<=len x schedules with <=2 short reads x failure at call 0..5",
+          bounds="4 bytes; --unwind 8", kernel=["ReaderUtils::read_to_vec", "io_utils::safe_vec"]),
     ],
 )
 
@@ -236,4 +239,26 @@ PROPERTIES["C26"] = dict(
                               "stub: the wrapped transport records the call and returns Ok"],
     harnesses=[],
     smt=dict(module="props_c26", K=6, N=24, timeout_ms=600000),
+)
+
+# --------------------------------------------------------------------------- C29
+PROPERTIES["C29"] = dict(
+    title="Resource files are confined to the manifest directory",
+    level="model_checking",
+    engine="smt",
+    technique="symbolic execution of the Rust source (syn AST -> bit-vector SMT over bounded byte strings) decided by z3; native replay of models",
+    level_text=("Bounded symbolic checking of the LEXICAL confinement kernels' source: the identifier is an arbitrary printable-ASCII "
+                "string up to the stated capacity; sanitize_archive_path (write side: ResourceStore::add, archive import) and "
+                "uri_to_path (export side: Reader::to_folder) are executed symbolically and z3 decides for ALL identifiers that an "
+                "accepted path is a clean relative path -- non-empty, not absolute, no backslash, no '.'/'..'/empty component -- so "
+                "joining it to the root cannot leave the root lexically."),
+    level_note=("Lexical kernels only. The read-side containment (resolve_within_root: canonicalisation, symbolic links, existence "
+                "probing) is file-system behaviour and is outside solver-based checking. std::path::Path::components is a library model "
+                "(unix semantics) validated differentially against the real function on every run; Windows prefixes are outside."),
+    scope="sdk/src/utils/path_utils.rs sanitize_archive_path; sdk/src/utils/io_utils.rs uri_to_path",
+    outside=["resolve_within_root / symlink handling / any file-system state", "Windows path semantics (drive/UNC prefixes)", "non-ASCII identifiers",
+             "identifiers with more than 5 '/' or longer than the tier capacity"],
+    assumptions=_SMT_TRUST + ["model: Path::components() with unix semantics (RootDir, CurDir only when leading, ParentDir, Normal; empty segments skipped)"],
+    harnesses=[],
+    smt=dict(module="props_c29", K=6, N=24, timeout_ms=900000),
 )
